@@ -69,8 +69,8 @@ class Ledger:
         self.entries = []
         if os.path.exists(p):
             for e in json.load(open(p))['findings']:
-                if e['property'] == prop:
-                    self.entries.append(e)
+                if e['property'] == prop and e['id'] not in os.environ.get('VERIF_IGNORE_KNOWN', '').split(','):
+                    self.entries.append(e)       # (VERIF_IGNORE_KNOWN: development aid - re-surface a listed finding)
 
     @staticmethod
     def _m(want, got):
